@@ -17,6 +17,7 @@ import (
 	"verif/internal/corpus"
 	"verif/internal/fw"
 	"verif/internal/gen"
+	"verif/internal/obs"
 )
 
 func init() {
@@ -225,6 +226,47 @@ func runC15(c *fw.Ctx) {
 				}
 				c15One(c, kind, bad)
 			})
+		}
+	}
+
+	// every token boundary of the construct snippets: a block comment, a line comment, a line break
+	// and (thorough) a truncation placed directly before each token in turn. Valid or not, the
+	// entry points must answer with a tree or an error.
+	zoo := layoutZoo()
+	var zn []string
+	for k := range zoo {
+		zn = append(zn, k)
+	}
+	sortStrings(zn)
+	zi := 0
+	for _, k := range zn {
+		src := []byte(zoo[k])
+		toks, _ := obs.Scan(src)
+		inserts := []struct{ kind, text string }{{"tokgap:block-comment", "/*c*/"}, {"tokgap:line-comment", "//c\n"}, {"tokgap:newline", "\n"}, {"tokgap:truncate-after-line-comment", "//c\n\x00"}}
+		for ti, t := range toks {
+			if t.Tok == token.SEMICOLON && t.Lit == "\n" {
+				continue
+			}
+			for _, ins := range inserts {
+				i := zi
+				zi++
+				if !c.Mine(i) || (c.Quick() && (ti+len(k))%3 != 0) {
+					continue
+				}
+				var bad []byte
+				if strings.HasSuffix(ins.text, "\x00") {
+					bad = append(append([]byte{}, src[:t.Off]...), ins.text[:len(ins.text)-1]...)
+				} else {
+					bad = append(append(append([]byte{}, src[:t.Off]...), ins.text...), src[t.Off:]...)
+				}
+				id := fmt.Sprintf("tokgap:%s/%d/%s", k, ti, ins.kind)
+				c.Case(id, func() {
+					c.Observe("corruption_kinds", ins.kind)
+					c.Count("inputs:"+ins.kind, 1)
+					c.Observe("tokgap_before_token", t.Tok.String())
+					c15One(c, ins.kind, bad)
+				})
+			}
 		}
 	}
 
